@@ -474,7 +474,23 @@ func c20Case1(seed int64, idx int, c *c20Case) (map[string]any, []map[string]any
 			ref = other
 		}
 		bound := time.Duration(float64(total-4*mib) / float64(int64(ref)*mib) * float64(time.Second))
-		if elapsed > bound/2 {
+		slow := elapsed > bound/2
+		if slow && other == 0 {
+			// no limit anywhere in this configuration: only a zero taken for a rate (a stall, or some default rate) can
+			// throttle it, and that takes far longer than a loaded machine does
+			slow = elapsed > 3*bound
+		} else if slow {
+			// slow by the clock - is it the other direction's limit or the machine? The same transfer through a proxy
+			// without any limit is timed right now; a throttled transfer takes (total - burst) / rate whatever the machine does
+			ref := *c
+			ref.C.Read, ref.C.Write, ref.Exp.Limited, ref.Exp.Rate, ref.Drain = 0, 0, false, 0, false
+			rres, _ := c20Case1(seed, idx, &ref)
+			if ms, ok := rres["elapsed_ms"].(int64); ok {
+				res["reference_ms"] = ms
+				slow = elapsed > 2*time.Duration(ms)*time.Millisecond+300*time.Millisecond
+			}
+		}
+		if slow {
 			fail(fmt.Sprintf("unlimited %s of %d MiB took %v (other direction's limit %d MiB/s would allow %v)", c.C.Dir, total/mib, elapsed, other, bound))
 		}
 	}
